@@ -271,6 +271,27 @@ def arrow_eval(spec, point):
     return vals, jac
 
 
+def arrow_deps(spec):
+    """structural dependency {variable: set of design-variable sources it depends on} (closure over the components)"""
+    dep = {x: {x} for x in spec['xs'] + spec['ss']}
+    dep['p'] = set()
+    for c in spec['comps']:
+        if c['kind'] == 'row':
+            d = set()
+            for u in c['us']:
+                d |= dep[u]
+            for sv, e, st in c['ss']:
+                d |= dep[sv]
+        else:
+            d = set(dep[c['u']])
+            if c.get('s'):
+                d |= dep[c['s']]
+            if c.get('q'):
+                d |= dep[c['q']]
+        dep[c['out']] = d
+    return dep
+
+
 def _cols(spec, wrt):
     sizes = spec['sizes']
     off, W = {}, 0
